@@ -1,6 +1,6 @@
 (* C11 — property theorems (statements only; proofs live in Proofs.v; vocabulary in Spec.v / Model.v). *)
 From Coq Require Import List NArith Bool.
-Require Import QV.C11.Model QV.C11.Spec QV.C11.Proofs QV.C11.Proofs_load QV.C11.Proofs_kill QV.C11.Guard QV.C11.Proofs_guard QV.C11.Proofs_exact QV.C11.Proofs_tight QV.C11.Repair QV.C11.Proofs_repair QV.C11.Proofs_audit QV.C11.Proofs_bad QV.C11.Proofs_clash.
+Require Import QV.C11.Model QV.C11.Spec QV.C11.Proofs QV.C11.Proofs_load QV.C11.Proofs_kill QV.C11.Guard QV.C11.Proofs_guard QV.C11.Proofs_exact QV.C11.Proofs_tight QV.C11.Repair QV.C11.Proofs_repair QV.C11.Proofs_audit QV.C11.Proofs_bad QV.C11.Proofs_clash QV.C11.Proofs_defect QV.C11.Proofs_accept.
 Import ListNotations.
 Open Scope N_scope.
 
@@ -471,3 +471,72 @@ Theorem C11_clash_nonvacuous :
      /\ s <> []).
 Proof. exact clash_nonvacuous. Qed.
 Print Assumptions C11_clash_nonvacuous.
+
+(* Round 6 — the clauses "an un-serializable nested object" and "an identifier clash" for EVERY template, storage and
+   cache (no "all new" hypothesis; generalises C11_unserializable_rejected to templates with cached children).  The
+   encoder descends into a child only when its identifier is not in the storage.  `defect root ks c T`: on a path of
+   such new children from the root there is an un-serializable object, or a child whose identifier is in the storage
+   while the cache does not hold this very object under it (another object cached under it / stored but not cached),
+   or a child that carries the identifier of the transaction root (e.g. the stored object inside its own replacement).
+   Then overwrite - and store unless the root object is cached, which makes store a no-op or a clash of its own -
+   answer PErr (EClash when nothing un-serializable is in the template) and the disk is the same disk after every
+   interruption.  `coherent_defb`: the same identifier + identity (= the same Python object) has the same value of
+   `defect`.  The converse (no reachable defect and no duplicate => accepted) is NOT proved.                      *)
+Theorem C11_defect_rejected : forall v b d c T,
+  defect (nid_of T) (keys (view d)) c T = true -> coherent_defb (nid_of T) (keys (view d)) c T = true ->
+  (exists e, plan_of2 v b d c (OOverwrite T) = PErr e /\ (has_bad T = false -> e = EClash)) /\
+  (lookup (nid_of T) c = None -> exists e, plan_of2 v b d c (OStore T) = PErr e /\ (has_bad T = false -> e = EClash)) /\
+  forall ck k, after_crash ck b (steps_of (plan_of2 v b d c (OOverwrite T))) k d = d /\
+               (lookup (nid_of T) c = None -> after_crash ck b (steps_of (plan_of2 v b d c (OStore T))) k d = d).
+Proof. exact defect_rejected. Qed.
+Print Assumptions C11_defect_rejected.
+
+Theorem C11_defect_nonvacuous :
+  let ks := keys (view (disk_of ex_store)) in
+  (forall T, In T [def_bad; def_stale; def_other; def_self] ->
+     defect (nid_of T) ks ex_cache T = true /\ coherent_defb (nid_of T) ks ex_cache T = true) /\
+  (forall b, plan_of2 current b (disk_of ex_store) ex_cache (OOverwrite def_bad) = PErr EUnser) /\
+  (forall b, plan_of2 current b (disk_of ex_store) ex_cache (OStore def_stale) = PErr EClash) /\
+  (forall b, plan_of2 current b (disk_of ex_store) ex_cache (OOverwrite def_other) = PErr EClash) /\
+  (forall b, plan_of2 current b (disk_of ex_store) ex_cache (OOverwrite def_self) = PErr EClash) /\
+  defect 4 ks ex_cache def_none = false /\
+  (forall b, exists s c', plan_of2 current b (disk_of ex_store) ex_cache (OOverwrite def_none) = PSteps s c' /\ s <> []).
+Proof. exact defect_nonvacuous. Qed.
+Print Assumptions C11_defect_nonvacuous.
+
+(* Round 6 — the converse: a template without reachable defect, in which no identifier names two different objects
+   (`dup_clashb` false) and no named object carries the identifier of one of its ancestors (`no_nestb`; with the
+   previous condition that would be an object inside itself), is ACCEPTED: overwrite - and store when the root
+   identifier is new - answer a plan with steps, for every storage content and cache.  No coherence hypothesis. *)
+Theorem C11_clean_accepted : forall v b d c T,
+  defect (nid_of T) (keys (view d)) c T = false -> dup_clashb T = false -> no_nestb T = true ->
+  (exists s c', plan_of2 v b d c (OOverwrite T) = PSteps s c') /\
+  (in_storage (keys (view d)) c (nid_of T) = false -> exists s c', plan_of2 v b d c (OStore T) = PSteps s c').
+Proof. exact clean_accepted. Qed.
+Print Assumptions C11_clean_accepted.
+
+(* WHICH templates are rejected before anything is written (the clauses "un-serializable nested object" and "identifier
+   clash" of the statement, model side): for templates whose named nodes below the root are new, with coherent
+   identities and no object inside itself, IF AND ONLY IF a defect is reachable or one identifier names two objects.
+   (With cached / stored children below the root only the two implications C11_defect_rejected / C11_clean_accepted
+   are proved: a duplicate below a cached child is never looked at.) *)
+Theorem C11_rejected_iff : forall v b d c T,
+  coherent_subb T = true -> coherent_defb (nid_of T) (keys (view d)) c T = true ->
+  new_belowb (keys (view d)) c T = true -> no_nestb T = true ->
+  ((exists e, plan_of2 v b d c (OOverwrite T) = PErr e) <->
+   defect (nid_of T) (keys (view d)) c T = true \/ dup_clashb T = true) /\
+  ((exists s c', plan_of2 v b d c (OOverwrite T) = PSteps s c') <->
+   defect (nid_of T) (keys (view d)) c T = false /\ dup_clashb T = false).
+Proof. exact rejected_iff. Qed.
+Print Assumptions C11_rejected_iff.
+
+Theorem C11_accepted_nonvacuous :
+  let ks := keys (view (disk_of ex_store)) in
+  let sh := Node 4 1 1 [Node 5 2 2 [Node 7 4 4 []]; Node 6 3 3 [Node 5 2 2 [Node 7 4 4 []]]] in
+  defect 4 ks ex_cache def_none = false /\ dup_clashb def_none = false /\ no_nestb def_none = true /\
+  defect 4 ks ex_cache sh = false /\ dup_clashb sh = false /\ no_nestb sh = true /\
+  (forall b, exists s c', plan_of2 current b (disk_of ex_store) ex_cache (OOverwrite sh) = PSteps s c' /\ s <> []) /\
+  defect 4 ks ex_cache def_stale = true /\ dup_clashb (clash_tmpl 4) = true /\
+  defect 4 ks ex_cache (clash_tmpl 4) = false /\ no_nestb (clash_tmpl 4) = true.
+Proof. exact accepted_nonvacuous. Qed.
+Print Assumptions C11_accepted_nonvacuous.
